@@ -51,7 +51,7 @@ func (k *TagReformattingMangler) Mangle(sf reflect.StructField) ([]reflect.Struc
 
 	tags, parseErr := structtag.Parse(string(sf.Tag))
 	if parseErr != nil {
-		return nil, err
+		return nil, parseErr
 	}
 	tags.Set(&structtag.Tag{
 		Key:     k.tag,
